@@ -1498,6 +1498,10 @@ func buildSelectFieldsWithExpressions(fields []Field) (
 					maxArgs := fn.GetMaxArgs()
 					// Function needs multi-parameter handling if it has multiple parameters
 					isMultiParamFunction = minArgs > 1 || (maxArgs > minArgs && minArgs >= 1)
+					// Functions configured by extra arguments, e.g. deduplicate(col, true)
+					if _, ok := fn.(functions.ParameterizedFunction); ok {
+						isMultiParamFunction = true
+					}
 				}
 			}
 
